@@ -19,4 +19,4 @@ package config
 //@ func (cfg *InstrumentationConfig) ValidateBasic() (err)
 //@   property C18
 //@   nopanic
-//@   ensures [bounds] err == nil <==> cfg.MaxOpenConnections >= 0
+//@   ensures [bounds] err == nil ==> cfg.MaxOpenConnections >= 0
